@@ -73,7 +73,7 @@ ASSUMPTIONS = [
     "still unwinding when the next root field starts is a violation (gather_with_cancel must await the siblings it "
     "cancels)",
     "deviation of the pinned tree from the strict reading, counted in the evidence (serial_background_overlaps, with an "
-    "example) and not reported as a violation (tools/c03_oracle.STRICT_BACKGROUND = False): work that the executor "
+    "example) and reported as the KNOWN FINDING `mutation-overlap-background` (tools/c03_oracle.STRICT_BACKGROUND = True; listed in known_findings.json): work that the executor "
     "abandons WITHOUT cancelling it stays pending until the environment completes it, so the next root field can start "
     "meanwhile. Two sources, both via Executor.settle_in_background: (1) a selection set nulled by a SYNCHRONOUS error "
     "while awaitable siblings are pending, e.g. mutation { a { slow nn } b } with slow awaitable and nn: String! "
